@@ -15,7 +15,7 @@ Rnd(sd, t, j) == LET a == (sd * 131 + t * 31 + j * 7 + 17) % 60000
 Pick(sd, t, j, n) == Rnd(sd, t, j) % n
 
 AllPaths == <<"f1", "f2", "f3", "f4", "f5", "f6", "f7", "f8", "f9", "f10", "f11", "f12", "f13", "f14", "f15", "f16", "f17", "f18", "f19">>
-NPaths(sd) == IF sd % 4 = 0 THEN 19 ELSE IF sd % 4 = 1 THEN 3 ELSE IF sd % 4 = 2 THEN 6 ELSE 17
+NPaths(sd) == IF EnvN("NPATHS", 0) > 0 THEN EnvN("NPATHS", 0) ELSE IF sd % 4 = 0 THEN 19 ELSE IF sd % 4 = 1 THEN 3 ELSE IF sd % 4 = 2 THEN 6 ELSE 17
 PathOf(sd, t, j) == AllPaths[Pick(sd, t, j, NPaths(sd)) + 1]
 
 (* prompt lines made of several commands: a save in the middle of a line, an undo after it, a switch at the end *)
@@ -38,6 +38,9 @@ GenCmd(st, sd, t) ==
                         ELSE IF Pick(sd, t, 8, 4) = 0 THEN [k |-> "a", n |-> 1]
                         ELSE [k |-> "e", path |-> AllPaths[Min2(NPaths(sd), Len(st.tab) + Pick(sd, t, 2, 2))], force |-> f(3)])
        ELSE IF k < 4 THEN [k |-> "line", cs |-> Elem3(Pick(sd, t, 2, 6), PathOf(sd, t, 3))]
+       (* with the table full, go back to the least recently used buffers by path: the last slots of the table *)
+       ELSE IF k < 10 /\ Len(st.tab) = 16 /\ st.tab[16 - Pick(sd, t, 4, 2)].path # ""
+            THEN [k |-> "e", path |-> st.tab[16 - Pick(sd, t, 4, 2)].path, force |-> f(5)]
        ELSE IF k < 18 THEN [k |-> "e", path |-> PathOf(sd, t, 2), force |-> f(5)]
        ELSE IF k < 23 THEN [k |-> "e", path |-> "", force |-> f(3)]
        ELSE IF k < 26 THEN [k |-> "top"]
@@ -109,7 +112,8 @@ DiskProj(st) == [p \in {q \in DOMAIN st.disk : st.disk[q].ex} |-> st.disk[p].lin
 (* the spec's own properties on every generated step *)
 Thm(s, c, t) == /\ DirtySound(t) /\ NoLoss(t) /\ TableOK(t)
                 /\ (c.k = "b" /\ c.how \in {"num", "next", "prev", "alias"}) => SameBufs(s, t)
-                /\ (c.k = "e" /\ c.path # "" /\ FindPath(s, c.path) > 0) => (SameBufs(s, t) /\ t.disk = s.disk)
+                (* returning to an open path changes no buffer and no file - unless autowrite first saves the modified current buffer *)
+                /\ (c.k = "e" /\ c.path # "" /\ FindPath(s, c.path) > 0 /\ ~(s.aw /\ Dirty(Cur(s)))) => (SameBufs(s, t) /\ t.disk = s.disk)
 
 RECURSIVE Script(_, _, _, _)
 Script(st, sd, t, n) ==
